@@ -1,16 +1,67 @@
-"""An independent character-level terminal emulator (infinite height, deferred auto-wrap) for the oracles of C15/C16/C19."""
+"""An independent character-level terminal emulator (infinite height, deferred auto-wrap) for the oracles of C10/C15/C16/C19.
+
+FAIL CLOSED: what the emulator does not model it REJECTS (ValueError -> the case is reported as impl-run-failed), it never treats
+an unknown sequence as a known one.
+  modelled   printable characters (one cell each), LF (next row, column 0), CR,
+             CSI n A (cursor up; no parameter and 0 mean 1, as on xterm), CSI J / CSI 0 J (erase from the cursor to the end of
+             the screen), CSI K / 0 K (erase to the end of the row), CSI 1 K (erase from the start of the row through the
+             cursor), CSI 2 K (the whole row), CSI n G (column n), CSI ... m (SGR: the pen of the cells written next; every
+             parameter must be one of the codes below, the pen is kept per cell)
+  rejected   CSI 1 J / 2 J / 3 J (erase above / the whole screen / the scroll-back: a real terminal wipes rows the section
+             stack needs), every other CSI final byte, CSI with private ('?') parameters, parameters where none is defined, a lone
+             ESC, every C0 control character other than LF and CR (BS, TAB, BEL, VT, FF, NUL ...), DEL
+A cursor movement or an erase while a wrap is pending (the cursor stands after the last column) clears the pending wrap and
+continues from the last column, as xterm does."""
 import re
 
-# an SGR sequence (ESC [ params m, also with one parameter) is tried first: it occupies no cell (Base/Term.v: Sgr)
-_TOK = re.compile(r"\x1b\[[0-9;]*m|\x1b\[(\d*)([A-Za-z])|.", re.S)
+# CSI: ESC [ parameter bytes (0-9 ; ?) and one final byte; a lone ESC and the C0 controls are tokens of their own
+_TOK = re.compile(r"\x1b\[([0-9;?]*)([@-~])|\x1b|.", re.S)
+
+_ATTR_ON = {1: "bold", 2: "dark", 3: "italic", 4: "underlined", 5: "blinking", 7: "inverse", 8: "hidden"}
+_ATTR_OFF = {21: ("bold",), 22: ("bold", "dark"), 23: ("italic",), 24: ("underlined",), 25: ("blinking",), 27: ("inverse",),
+             28: ("hidden",)}
+DEFAULT_PEN = (None, None, ())
+
+
+def pen_apply(pen, params):
+    """the pen after ESC [ params m; ValueError for a parameter that is not a colour / attribute code of ECMA-48 as pastel uses
+    them (0, 1-5, 7, 8, 21-25, 27, 28, 30-37, 39, 40-47, 49, 90-97, 100-107)"""
+    fg, bg, attrs = pen
+    attrs = set(attrs)
+    for p in (params.split(";") if params else ["0"]):
+        if p == "":
+            p = "0"
+        if not p.isdigit():
+            raise ValueError("SGR parameter not modelled: %r" % params)
+        n = int(p)
+        if n == 0:
+            fg, bg, attrs = None, None, set()
+        elif n in _ATTR_ON:
+            attrs.add(_ATTR_ON[n])
+        elif n in _ATTR_OFF:
+            attrs.difference_update(_ATTR_OFF[n])
+        elif 30 <= n <= 37 or 90 <= n <= 97:
+            fg = n
+        elif n == 39:
+            fg = None
+        elif 40 <= n <= 47 or 100 <= n <= 107:
+            bg = n
+        elif n == 49:
+            bg = None
+        else:
+            raise ValueError("SGR parameter not modelled: %r" % params)
+    return (fg, bg, tuple(sorted(attrs)))
 
 
 class Term(object):
     def __init__(self, width):
+        if width < 1:
+            raise ValueError("terminal width %r" % (width,))
         self.w = width
-        self.rows = [[]]
+        self.rows = [[]]          # rows of cells; a cell is (character, pen)
         self.r = 0
         self.c = 0
+        self.pen = DEFAULT_PEN
 
     def _row(self, r):
         while len(self.rows) <= r:
@@ -23,12 +74,17 @@ class Term(object):
             self.c = 0
         row = self._row(self.r)
         while len(row) < self.c:
-            row.append(" ")
+            row.append((" ", DEFAULT_PEN))
         if len(row) == self.c:
-            row.append(ch)
+            row.append((ch, self.pen))
         else:
-            row[self.c] = ch
+            row[self.c] = (ch, self.pen)
         self.c += 1
+
+    def _unwrap(self):
+        # a pending wrap is dropped by a cursor movement / an erase: the cursor is on the last column
+        if self.c == self.w:
+            self.c = self.w - 1
 
     def feed(self, data):
         for m in _TOK.finditer(data):
@@ -39,36 +95,60 @@ class Term(object):
                 self._row(self.r)
             elif t == "\r":
                 self.c = 0
-            elif t.startswith("\x1b["):
-                if m.group(2) is None:
-                    continue  # SGR: the look of the next cells only
+            elif m.group(2) is not None:
                 n, k = m.group(1), m.group(2)
+                if k == "m":
+                    if "?" in n:
+                        raise ValueError("control sequence not modelled: %r" % t)
+                    self.pen = pen_apply(self.pen, n)
+                    continue
+                if not (n == "" or n.isdigit()):
+                    raise ValueError("control sequence not modelled: %r" % t)
                 if k == "A":
-                    self.r = max(0, self.r - int(n or "1"))
+                    self._unwrap()
+                    self.r = max(0, self.r - (int(n or "1") or 1))
                 elif k == "J":
+                    if n not in ("", "0"):
+                        # 1 J erases ABOVE the cursor, 2 J / 3 J the whole screen: not "erase below"
+                        raise ValueError("control sequence not modelled (erases more than the rows below): %r" % t)
+                    self._unwrap()
                     del self.rows[self.r + 1:]
                     row = self._row(self.r)
                     del row[self.c:]
                 elif k == "K":
+                    self._unwrap()
                     row = self._row(self.r)
-                    if n == "2":
+                    if n in ("", "0"):
+                        del row[self.c:]
+                    elif n == "1":
+                        for i in range(min(self.c + 1, len(row))):
+                            row[i] = (" ", DEFAULT_PEN)
+                    elif n == "2":
                         del row[:]
                     else:
-                        del row[self.c:]
+                        raise ValueError("control sequence not modelled: %r" % t)
                 elif k == "G":
-                    self.c = max(0, int(n or "1") - 1)
+                    self.c = min(self.w - 1, max(0, (int(n or "1") or 1) - 1))
                 else:
-                    raise ValueError("unknown control sequence %r" % t)
+                    raise ValueError("control sequence not modelled: %r" % t)
+            elif t == "\x1b" or ord(t) < 0x20 or ord(t) == 0x7f:
+                raise ValueError("control character not modelled: %r" % t)
             else:
                 self.put(t)
 
     def screen(self):
-        return ["".join(r) for r in self.rows]
+        return ["".join(ch for ch, _ in r) for r in self.rows]
+
+    def pens(self):
+        """per row, the pen (fg code, bg code, sorted attribute names) of every cell"""
+        return [[p for _, p in r] for r in self.rows]
 
 
 def tokens(data):
-    """bytes -> the emit tokens of Base/Term.v: [0,c] char, [1] LF, [2] CR, [3,n] up, [4] erase below, [5] erase line,
-    [9,seq] an SGR sequence (all its characters)"""
+    """bytes -> the emit tokens of Base/Term.v: [0,c] char, [1] LF, [2] CR, [3,n] up n (the parameter as written: ESC[0A is
+    [3,0]), [4] erase below (ESC[J, ESC[0J and nothing else), [5] erase line (ESC[2K and nothing else), [9,seq] an SGR sequence
+    (all its characters); every other control sequence is kept as it is, [8,seq], so that it can equal no token of the model.
+    A lone ESC and control characters are characters (the model has no other reading of them)."""
     out = []
     for m in _TOK.finditer(data):
         t = m.group(0)
@@ -76,14 +156,13 @@ def tokens(data):
             out.append([1])
         elif t == "\r":
             out.append([2])
-        elif t.startswith("\x1b["):
-            if m.group(2) is None:
-                out.append([9, [ord(x) for x in t]])
-                continue
+        elif m.group(2) is not None:
             n, k = m.group(1), m.group(2)
-            if k == "A":
-                out.append([3, int(n or "1")])
-            elif k == "J":
+            if k == "m" and "?" not in n:
+                out.append([9, [ord(x) for x in t]])
+            elif k == "A" and n.isdigit():
+                out.append([3, int(n)])
+            elif k == "J" and n in ("", "0"):
                 out.append([4])
             elif k == "K" and n == "2":
                 out.append([5])
